@@ -326,6 +326,8 @@ class Frame:
             for q, t in self.expr(st.value, p):
                 if q.status == "live":
                     targets = st.targets if isinstance(st, ast.Assign) else [st.target]
+                    if isinstance(st, ast.AugAssign) and isinstance(st.target, ast.Name) and st.target.id in q.env:
+                        t = self.augmented(st, q.env[st.target.id], t, q)
                     for tg in targets:
                         self.assign(tg, t, q, st)
                 out.append(q)
@@ -612,6 +614,16 @@ class Frame:
                 out.append(r)
         return out
 
+    def augmented(self, st: ast.AugAssign, cur: Term, t: Term, p: Path) -> Term:
+        """``x op= v`` binds x to ``x op v``; for lists whose contents are known, ``+=`` is the concatenation."""
+        if isinstance(st.op, ast.Add):
+            if isinstance(cur, (Child, Coll)) and self._is_fresh_copy(st.target.id, p):
+                cur = Seq([Sym("star", (cur,))])
+            if isinstance(cur, Seq) or (isinstance(cur, Sym) and cur.head == "list[]" and not cur.args):
+                base = list(cur.items) if isinstance(cur, Seq) else []
+                return Seq(base + (list(t.items) if isinstance(t, Seq) else [Sym("star", (t,))]))
+        return Sym("binop:" + type(st.op).__name__, (cur, t))
+
     def assign(self, tg, t: Term, p: Path, st):
         if isinstance(tg, ast.Name):
             p.env[tg.id] = t
@@ -795,10 +807,12 @@ class Frame:
     def _is_object(t) -> bool:
         """A term that certainly denotes an object (never None / a constant): a constructed
         node, a function, ``self``, or the result of calling a class."""
-        if isinstance(t, (New, Fn)):
+        if isinstance(t, (New, Fn, Seq, Coll)):
             return True
         if t is None:
             return False
+        if isinstance(t, Sym) and t.head in ("dict", "dict{}", "list[]", "fstr"):
+            return True          # a display / an f-string is an object, never None
         k = t.key()
         # (a caught exception — ``except E as e`` — is an exception object)
         return k == "self" or k == SELF.key() or k.startswith("new:") or k.startswith("exc-of(")
@@ -1912,6 +1926,10 @@ class Frame:
         out = []
         if isinstance(f, ast.Attribute) and f.attr in ("append", "add", "extend") and isinstance(f.value, ast.Name) and len(e.args) == 1 and not e.keywords:
             cur = p.env.get(f.value.id)
+            if isinstance(cur, (Child, Coll)) and f.attr != "add" and self._is_fresh_copy(f.value.id, p):
+                # ``xs = list(self.items)`` / ``[*self.items]`` / ``self.items.copy()``: a list of its own holding those elements
+                cur = Seq([Sym("star", (cur,))])
+                p.env[f.value.id] = cur
             if isinstance(cur, Seq) or (isinstance(cur, Sym) and cur.head in ("list[]", "call:set", "call:list")):
                 for q, t in self.expr(e.args[0], p):
                     if q.status == "live":
@@ -1960,6 +1978,21 @@ class Frame:
                     continue
                 out.extend(self.call_term(callee, pos, kw, q2, e))
         return out
+
+    @staticmethod
+    def _is_fresh_copy(name: str, p: Path) -> bool:
+        """The local was bound to a new list made from an iterable (not to the iterable itself)."""
+        src = p.src.get(name)
+        if not src:
+            return False
+        v = src[1]
+        if isinstance(v, ast.Call) and isinstance(v.func, ast.Name) and v.func.id == "list" and len(v.args) == 1 and not v.keywords:
+            return True
+        if isinstance(v, ast.Call) and isinstance(v.func, ast.Attribute) and v.func.attr == "copy" and not v.args:
+            return True
+        if isinstance(v, ast.List) and len(v.elts) == 1 and isinstance(v.elts[0], ast.Starred):
+            return True
+        return False
 
     def first_match(self, e: ast.Call, p: Path):
         """``next((elt for x in <known sequence> if cond), default)``: the first item that passes, lazily —
